@@ -158,13 +158,15 @@ class Engine:
         opt["d"] = bool(T.draw(2))
         opt["R"] = bool(T.draw(2))
         if sw == 1 or T.draw(3):
-            opt["e"] = 20.0
+            # loud windows are 36..42 dB (1-byte samples) / >= 84 dB (wider),
+            # quiet ones <= 10 dB: thresholds on both sides of those levels
+            opt["e"] = T.choice([20.0, 12.5, 35.0, 39.5, 60.0, 86.0])
         if ch > 1 and T.draw(2):
             opt["u"] = T.choice(["0", "1", "-1", "mix", "avg", "any",
                                  "average"])
             if opt["u"] == "1" and ch < 2:
                 opt["u"] = "0"
-        kind = T.choice(["raw", "wav", "stdin", "raw_noext"])
+        kind = T.choice(["raw", "wav", "stdin", "raw_noext", "wav_noext"])
         large = bool(T.draw(2)) if kind != "stdin" else False
         nmax = 40 if tier == "quick" else 100
         if long_:
@@ -263,8 +265,11 @@ class Engine:
                 pipe = sources.SimPipe(data, stall=stall)
                 argv.append("-")
             else:
-                if kind == "wav":
-                    inp = os.path.join(tmp, "in.wav")
+                if kind in ("wav", "wav_noext"):
+                    inp = os.path.join(
+                        tmp, "in.wav" if kind == "wav" else "in.bin")
+                    if kind == "wav_noext":
+                        argv += ["-f", "wav"]
                     with wave.open(inp, "wb") as wf:
                         wf.setframerate(sr)
                         wf.setsampwidth(sw)
@@ -280,7 +285,7 @@ class Engine:
                 argv.append(inp)
                 if sc["large"]:
                     argv.append("-L")
-            if kind != "wav" and not sc["defaults_fmt"]:
+            if kind not in ("wav", "wav_noext") and not sc["defaults_fmt"]:
                 argv += ["-r", str(sr), "-c", str(ch), "-w", str(sw)]
             for k in ("a", "n", "m", "s", "e", "M"):
                 if k in opt:
